@@ -265,6 +265,8 @@ func init() {
 			checkComparator(c, "R1.1")
 			checkOpsConcatenation(c)
 			checkWitnessAll(c, "R5.3")
+			// what Commit stores keeps the staging order: packs are cut where the author changes, never regrouped (shared with C04)
+			checkAuthorSplit(c)
 			// the histories git-bug writes itself pass these refusals: the merge commit is dated after both branches were witnessed (shared with C01/C05)
 			checkMergeCommitPack(c)
 			// git-bug must not itself produce a history it refuses: merge joins related histories only (shared with C02)
@@ -280,6 +282,8 @@ func init() {
 			checkMergeCommitPack(c)
 			checkOrderIndependence(c)
 			checkWitnessAll(c, "R1.4")
+			// every replica accepts exactly the commits the others accept: the signature check and its inputs (shared with C08)
+			checkPackVerification(c)
 			// what a replica shows and builds its next edit on is what merge hands back and what the
 			// cache takes over: both must be the merged state (shared with C02/C11)
 			ruleDocsMerge(c)
@@ -403,7 +407,7 @@ func checkReadGuards(c *Ctx) {
 			}
 			why = fmt.Sprintf("hop test refuses iff distance %s %d", g.Op, k)
 		}
-		report("e:hop-limit", found, why, map[string]bool{"nonmerge": false})
+		report("e:hop-limit", found, why, map[string]bool{"nonmerge": true}) // required: the merge commits git-bug writes itself are dated by a clock shared by all entities and may be arbitrarily far from a dormant branch
 	}
 	// (b) merge commit with operations
 	{
